@@ -30,6 +30,21 @@ def run(ctx):
             for domh in (0, 3):
                 cfg = nv.Cfg(domh=domh, height=h)
                 cases.append({"op": "solve", "problem": prob.to_json(), "cfg": ce.cfg_json(cfg), "n": n, "limit": 3})
+    # three-way splits at the limit: unconstrained variables over {0,1,2} under mid_value (the interior value is taken first: two
+    # levels are pushed per decision), optionally preceded by one Boolean so that both parities of the height are reached
+    for h in heights:
+        if h > 256:
+            continue
+        base_ns = sorted({max(1, (h - 1) // 2 + d) for d in (-2, -1, 0, 1)}) if h > 8 else [1, 2, 3, 4, 5]
+        for n3 in base_ns:
+            for lead in (0, 1):
+                if n3 + lead > 140:
+                    continue
+                shr = [(0, 1)] * lead + [(0, 2)] * n3
+                prob = nv.Prob(shr, props=[])
+                cfg = nv.Cfg(domh=3, height=h)
+                cases.append({"op": "solve", "problem": prob.to_json(), "cfg": ce.cfg_json(cfg), "n": n3 + lead, "limit": 4, "ternary": True,
+                              "total": (2 ** lead) * (3 ** min(n3, 3))})
     jit = ctx["tier"] == "thorough"
     res = ce.run_impl(cases, jit=False, tag="C19", timeout_per_batch=600)
     small = [i for i, c in enumerate(cases) if c["cfg"]["height"] <= 256]
@@ -52,11 +67,19 @@ def run(ctx):
         il = ce.impl_line(c, r)
         if il != amap[i]:
             corr.append(dict(replay, implementation=il[:300], model=amap[i][:300]))
-        if r[0] == "ok":
+        if r[0] == "ok" and c.get("ternary"):
+            # unconstrained: every vector of the box is a solution; the enumeration may only stop early by raising
+            want = min(c["limit"], c["total"])
+            if len(r[1]) < want or len({tuple(x) for x in r[1]}) != len(r[1]):
+                viol.append(dict(replay, kind="capacity", detail=f"height {h}, three-way splits: the enumeration ended without error after {len(r[1])} "
+                                                                f"distinct solutions of at least {want}: {r[1][:2]}"))
+        elif r[0] == "ok":
             # whatever the height, results that ARE returned must be right: the two constant assignments
             exp = [[0] * n, [1] * n]
             if sorted(r[1]) != sorted(exp)[: len(r[1])] and sorted(r[1]) != exp:
                 viol.append(dict(replay, kind="capacity", detail=f"height {h}: wrong/duplicated/missing solutions {r[1][:3]}"))
+        if r[0] == "err" and r[1] == "oob":
+            viol.append(dict(replay, kind="capacity", detail=f"height {h}: an index error other than the documented stack-overflow report escaped (a write beyond the stacks)"))
         report.sample({"height": h, "booleans": n, "implementation": il[:120], "model": amap[i][:120]}, cap=5)
     # compiled mode (where an unguarded overflow would corrupt memory): same cases for a few heights
     sub = [i for i, c in enumerate(cases) if c["cfg"]["height"] in ((6, 256, 257) if ctx["tier"] == "quick" else (4, 6, 8, 128, 256, 257, 512))]
